@@ -214,4 +214,596 @@ theorem policyCount_specOK (s : Str) : specCount s (policyCountSet s) = true := 
         · cases hx
       · rfl
 
+
+/-! ## durations (`data.ParseDuration`, `Duration.String`) -/
+
+theorem splitMinus_length (s : Str) : (splitMinus s).2.length ≤ s.length := by
+  unfold splitMinus; split <;> simp
+
+theorem takeWhile_allDigits (r : Str) : allDigits (r.takeWhile isDigit) = true := by
+  unfold allDigits
+  exact List.all_takeWhile
+
+theorem digits_head_not_sign (ds : Str) (h1 : ds ≠ []) (h2 : allDigits ds = true) : splitSign ds = (false, ds) := by
+  cases ds with
+  | nil => exact absurd rfl h1
+  | cons c cs =>
+    have hc : isDigit c = true := by
+      unfold allDigits at h2; rw [List.all_eq_true] at h2; exact h2 c (List.mem_cons_self ..)
+    unfold isDigit at hc
+    simp only [Bool.and_eq_true, decide_eq_true_eq] at hc
+    have h48 : 48 ≤ c.toNat := UInt8.le_iff_toNat_le.mp hc.1
+    unfold splitSign
+    split
+    · rename_i r heq; injection heq with heq _; subst heq; simp at h48
+    · rename_i r heq; injection heq with heq _; subst heq; simp at h48
+    · rfl
+
+/-- `Atoi` on a non-empty digit string: the value when it fits an `int`, an error otherwise -/
+theorem atoi_digits (ds : Str) (h1 : ds ≠ []) (h2 : allDigits ds = true) :
+    (decVal ds < two63 → atoi ds = .ok (decVal ds : Int)) ∧
+    (¬ decVal ds < two63 → ∃ e, atoi ds = .error e) := by
+  have hs := digits_head_not_sign ds h1 h2
+  unfold atoi two63
+  constructor
+  · intro hlt
+    apply (parseInt64_ok_iff ds _).mpr
+    rw [hs]
+    exact ⟨h1, h2, by simp, by omega, by omega⟩
+  · intro hge
+    cases hp : parseInt 64 ds with
+    | error e => exact ⟨e, rfl⟩
+    | ok v =>
+      exfalso
+      obtain ⟨_, _, h3, _, h5⟩ := (parseInt64_ok_iff ds v).mp hp
+      rw [hs] at h3
+      simp at h3
+      omega
+
+/-- relation between the `ParseDuration` loop and the specification's tokeniser -/
+def Rel (fuel : Nat) (d : Duration) (s : Str) : Prop :=
+  match parseDurationLoop false fuel d s with
+  | .ok d' => ∃ items, tokenize fuel s = some items ∧ items.all Item.valid = true ∧ d' = items.foldl Duration.assign d
+  | .err _ => ∀ items, tokenize fuel s = some items → items.all Item.valid = false
+  | .panic => False
+
+theorem item_invalid_cons (i : Item) (is : List Item) (h : i.valid = false) : (i :: is).all Item.valid = false := by
+  simp [List.all_cons, h]
+
+theorem rel (fuel : Nat) : ∀ (d : Duration) (s : Str), s.length < fuel → Rel fuel d s := by
+  induction fuel with
+  | zero => intro d s h; omega
+  | succ fuel ih =>
+    intro d s hlen
+    unfold Rel
+    by_cases hs : s = []
+    · subst hs
+      simp only [parseDurationLoop, if_true, tokenize]
+      exact ⟨[], rfl, rfl, rfl⟩
+    · have hrl := splitMinus_length s
+      unfold parseDurationLoop tokenize nextNumber
+      simp only [hs, if_false]
+      generalize splitMinus s = p at hrl
+      obtain ⟨neg, r⟩ := p
+      simp only at hrl ⊢
+      have hall := takeWhile_allDigits r
+      have hdl : (r.dropWhile isDigit).length ≤ r.length := (List.dropWhile_sublist _).length_le
+      generalize hds : r.takeWhile isDigit = ds at hall
+      generalize hrest : r.dropWhile isDigit = rest at hdl
+      by_cases hde : ds = []
+      · -- no number found
+        simp only [hde, if_true]
+        intro items hit
+        cases rest with
+        | nil => simp at hit
+        | cons u s'' =>
+          simp only at hit
+          cases ht : tokenize fuel s'' with
+          | none => rw [ht] at hit; simp at hit
+          | some its =>
+            rw [ht] at hit; simp only [Option.some.injEq] at hit; subst hit
+            exact item_invalid_cons _ _ (by simp [Item.valid])
+      · simp only [hde, if_false]
+        obtain ⟨hok, herr⟩ := atoi_digits ds hde hall
+        by_cases hfit : decVal ds < two63
+        · rw [hok hfit]
+          simp only
+          cases rest with
+          | nil => simp
+          | cons u s'' =>
+            have hl'' : s''.length < fuel := by simp only [List.length_cons] at hdl; omega
+            simp only
+            -- the item read in this iteration
+            have hval : (⟨neg, ds, u⟩ : Item).value = (if neg = true then -(decVal ds : Int) else (decVal ds : Int)) := rfl
+            have step : ∀ d1 : Duration, d1 = Duration.assign d ⟨neg, ds, u⟩ →
+                (u = 121 ∨ u = 109 ∨ u = 100 ∨ u = 104) →
+                (match parseDurationLoop false fuel d1 s'' with
+                  | .ok d' => ∃ items, (match tokenize fuel s'' with
+                        | none => none
+                        | some items => some (⟨neg, ds, u⟩ :: items)) = some items ∧ items.all Item.valid = true ∧ d' = items.foldl Duration.assign d
+                  | .err _ => ∀ items, (match tokenize fuel s'' with
+                        | none => none
+                        | some items => some (⟨neg, ds, u⟩ :: items)) = some items → items.all Item.valid = false
+                  | .panic => False) := by
+              intro d1 hd1 hu
+              have hvalid : (⟨neg, ds, u⟩ : Item).valid = true := by
+                simp only [Item.valid, Bool.and_eq_true, decide_eq_true_eq, Bool.or_eq_true, beq_iff_eq]
+                exact ⟨⟨⟨hde, hall⟩, hfit⟩, by rcases hu with h | h | h | h <;> simp [h]⟩
+              have := ih d1 s'' hl''
+              unfold Rel at this
+              cases hloop : parseDurationLoop false fuel d1 s'' with
+              | ok d' =>
+                rw [hloop] at this
+                obtain ⟨items, h1, h2, h3⟩ := this
+                refine ⟨⟨neg, ds, u⟩ :: items, by rw [h1], ?_, ?_⟩
+                · simp [List.all_cons, hvalid, h2]
+                · rw [List.foldl_cons, ← hd1]; exact h3
+              | err e =>
+                rw [hloop] at this
+                intro items hit
+                cases ht : tokenize fuel s'' with
+                | none => rw [ht] at hit; simp at hit
+                | some its =>
+                  rw [ht] at hit; simp only [Option.some.injEq] at hit; subst hit
+                  simp [List.all_cons, this its ht]
+              | panic => rw [hloop] at this; exact this
+            by_cases hy : u = 121
+            · subst hy
+              simp only [if_true]
+              exact step _ (by simp [Duration.assign, Item.value]) (Or.inl rfl)
+            · by_cases hm : u = 109
+              · subst hm
+                have : ¬ ((109 : UInt8) = 121) := by decide
+                simp only [this, if_false, if_true]
+                exact step _ (by simp [Duration.assign, Item.value]) (Or.inr (Or.inl rfl))
+              · by_cases hd' : u = 100
+                · subst hd'
+                  have h1 : ¬ ((100 : UInt8) = 121) := by decide
+                  have h2 : ¬ ((100 : UInt8) = 109) := by decide
+                  simp only [h1, h2, if_false, if_true]
+                  exact step _ (by simp [Duration.assign, Item.value]) (Or.inr (Or.inr (Or.inl rfl)))
+                · by_cases hh : u = 104
+                  · subst hh
+                    have h1 : ¬ ((104 : UInt8) = 121) := by decide
+                    have h2 : ¬ ((104 : UInt8) = 109) := by decide
+                    have h3 : ¬ ((104 : UInt8) = 100) := by decide
+                    simp only [h1, h2, h3, if_false, if_true]
+                    exact step _ (by simp [Duration.assign, Item.value]) (Or.inr (Or.inr (Or.inr rfl)))
+                  · simp only [hy, hm, hd', hh, if_false]
+                    intro items hit
+                    cases ht : tokenize fuel s'' with
+                    | none => rw [ht] at hit; simp at hit
+                    | some its =>
+                      rw [ht] at hit; simp only [Option.some.injEq] at hit; subst hit
+                      exact item_invalid_cons _ _ (by simp [Item.valid, hy, hm, hd', hh])
+        · obtain ⟨e, he⟩ := herr hfit
+          rw [he]
+          simp only [Bool.false_eq_true, if_false]
+          intro items hit
+          cases rest with
+          | nil => simp at hit
+          | cons u s'' =>
+            simp only at hit
+            cases ht : tokenize fuel s'' with
+            | none => rw [ht] at hit; simp at hit
+            | some its =>
+              rw [ht] at hit; simp only [Option.some.injEq] at hit; subst hit
+              exact item_invalid_cons _ _ (by simp [Item.valid, hfit])
+
+
+/-- **no input crashes the duration parser** (the code after the fix of F1) -/
+theorem duration_total (s : Str) : parseDuration false s ≠ .panic := by
+  unfold parseDuration
+  have := rel ((trimSpace s).length + 1) Duration.zero (trimSpace s) (by omega)
+  unfold Rel at this
+  intro h
+  simp only at h
+  rw [h] at this
+  exact this
+
+/-- **durations are exact** (decidable form, evaluated by the driver on the implementation's
+    output as well): the parser accepts exactly the strings of the form `(-?digits unit)*` (after
+    trimming) all of whose numbers fit an `int`, and returns the last value per unit; everything
+    else is rejected with an error -/
+theorem duration_specOK (s : Str) : specDuration s (parseDuration false s) = true := by
+  unfold specDuration parseDuration
+  have := rel ((trimSpace s).length + 1) Duration.zero (trimSpace s) (by omega)
+  unfold Rel at this
+  simp only
+  cases hl : parseDurationLoop false ((trimSpace s).length + 1) Duration.zero (trimSpace s) with
+  | ok d' =>
+    rw [hl] at this
+    obtain ⟨items, h1, h2, h3⟩ := this
+    simp only [h1, h2, Bool.true_and, denote, h3]
+    simp
+  | err e =>
+    rw [hl] at this
+    simp only
+    cases ht : tokenize ((trimSpace s).length + 1) (trimSpace s) with
+    | none => rfl
+    | some items => simp [this items ht]
+  | panic => rw [hl] at this; exact this.elim
+
+/-- accepted durations, spelled out: the trimmed string tokenises into valid items and the result
+    is the value they denote -/
+theorem duration_ok_iff (s : Str) (d : Duration) :
+    parseDuration false s = .ok d ↔
+      ∃ items, tokenize ((trimSpace s).length + 1) (trimSpace s) = some items ∧
+        items.all Item.valid = true ∧ d = denote items := by
+  have hspec := duration_specOK s
+  unfold specDuration at hspec
+  constructor
+  · intro h
+    rw [h] at hspec
+    simp only at hspec
+    cases ht : tokenize ((trimSpace s).length + 1) (trimSpace s) with
+    | none => rw [ht] at hspec; cases hspec
+    | some items =>
+      rw [ht] at hspec
+      simp only [Bool.and_eq_true, beq_iff_eq] at hspec
+      exact ⟨items, rfl, hspec.1, hspec.2⟩
+  · rintro ⟨items, h1, h2, h3⟩
+    cases hr : parseDuration false s with
+    | panic => exact absurd hr (duration_total s)
+    | ok d' =>
+      rw [hr] at hspec
+      simp only [h1, Bool.and_eq_true, beq_iff_eq] at hspec
+      rw [hspec.2, h3]
+    | err e =>
+      rw [hr] at hspec
+      simp only [h1, h2] at hspec
+      cases hspec
+
+/-- F1 on the code before the fix: a number beyond the `int` range makes `nextNumber` panic -/
+theorem legacy_duration_panics :
+    parseDuration true [57,57,57,57,57,57,57,57,57,57,57,57,57,57,57,57,57,57,57,57,100] = .panic := by decide
+
+/-- the same input is rejected with an error by the fixed code -/
+theorem fixed_duration_rejects :
+    parseDuration false [57,57,57,57,57,57,57,57,57,57,57,57,57,57,57,57,57,57,57,57,100] = .err .range := by decide
+
+
+/-! ### the grammar: rendering items and parsing them back; `Duration.String` -/
+
+/-- the string a list of items stands for -/
+def renderAll (items : List Item) : Str := items.flatMap Item.render
+
+/-- well-formed item: non-empty digit string, unit is not a digit -/
+def wfItem (i : Item) : Prop := i.digits ≠ [] ∧ allDigits i.digits = true ∧ isDigit i.unit = false
+
+theorem valid_wf (i : Item) (h : i.valid = true) : wfItem i := by
+  simp only [Item.valid, Bool.and_eq_true, decide_eq_true_eq, Bool.or_eq_true, beq_iff_eq] at h
+  refine ⟨h.1.1.1, h.1.1.2, ?_⟩
+  rcases h.2 with ((h' | h') | h') | h' <;> rw [h'] <;> decide
+
+theorem takeWhile_digits (ds : Str) (u : UInt8) (rest : Str) (h : allDigits ds = true) (hu : isDigit u = false) :
+    (ds ++ u :: rest).takeWhile isDigit = ds ∧ (ds ++ u :: rest).dropWhile isDigit = u :: rest := by
+  unfold allDigits at h
+  rw [List.all_eq_true] at h
+  constructor
+  · rw [List.takeWhile_append_of_pos h, List.takeWhile_cons_of_neg (by simp [hu])]; simp
+  · rw [List.dropWhile_append_of_pos h, List.dropWhile_cons_of_neg (by simp [hu])]
+
+theorem splitMinus_render (i : Item) (rest : Str) (h : wfItem i) :
+    splitMinus (i.render ++ rest) = (i.neg, i.digits ++ i.unit :: rest) := by
+  obtain ⟨h1, h2, _⟩ := h
+  unfold Item.render
+  cases hn : i.neg with
+  | true => simp [splitMinus]
+  | false =>
+    simp only [Bool.false_eq_true, if_false, List.nil_append, List.append_assoc, List.singleton_append]
+    cases hd : i.digits with
+    | nil => exact absurd hd h1
+    | cons c cs =>
+      have hc : isDigit c = true := by
+        unfold allDigits at h2; rw [hd, List.all_eq_true] at h2; exact h2 c (List.mem_cons_self ..)
+      unfold splitMinus
+      split
+      · rename_i r heq
+        simp only [List.cons_append] at heq
+        injection heq with heq _
+        subst heq
+        exact absurd hc (by decide)
+      · rfl
+
+/-- the tokeniser of the specification inverts rendering: `specDuration` really speaks about the
+    documented form `(-?digits unit)*` -/
+theorem tokenize_renderAll (items : List Item) (h : ∀ i ∈ items, wfItem i) :
+    ∀ fuel, (renderAll items).length < fuel → tokenize fuel (renderAll items) = some items := by
+  induction items with
+  | nil =>
+    intro fuel hf
+    cases fuel with
+    | zero => omega
+    | succ f => simp [renderAll, tokenize]
+  | cons i is ih =>
+    intro fuel hf
+    have hi := h i (List.mem_cons_self ..)
+    have his : ∀ j ∈ is, wfItem j := fun j hj => h j (List.mem_cons_of_mem _ hj)
+    cases fuel with
+    | zero => omega
+    | succ f =>
+      have hr : renderAll (i :: is) = i.render ++ renderAll is := by simp [renderAll]
+      rw [hr] at hf ⊢
+      have hne : i.render ++ renderAll is ≠ [] := by
+        unfold Item.render; simp
+      unfold tokenize
+      simp only [hne, if_false, splitMinus_render i _ hi]
+      obtain ⟨h1, h2⟩ := takeWhile_digits i.digits i.unit (renderAll is) hi.2.1 hi.2.2
+      rw [h1, h2]
+      have hlen : (renderAll is).length < f := by
+        have : (i.render ++ renderAll is).length ≥ (renderAll is).length + 1 := by
+          unfold Item.render; simp; omega
+        omega
+      simp only [ih his f hlen]
+
+theorem trimSpace_id (s : Str) (hh : ∀ c, s.head? = some c → isSpace c = false)
+    (hl : ∀ c, s.getLast? = some c → isSpace c = false) : trimSpace s = s := by
+  unfold trimSpace
+  have h1 : s.dropWhile isSpace = s := by
+    cases s with
+    | nil => rfl
+    | cons c cs => exact List.dropWhile_cons_of_neg (by simp [hh c rfl])
+  rw [h1]
+  have h2 : s.reverse.dropWhile isSpace = s.reverse := by
+    cases hr : s.reverse with
+    | nil => rfl
+    | cons c cs =>
+      have : s.getLast? = some c := by rw [← List.head?_reverse, hr]; rfl
+      exact List.dropWhile_cons_of_neg (by simp [hl c this])
+  rw [h2, List.reverse_reverse]
+
+theorem render_head_last (i : Item) (h : i.valid = true) :
+    (∀ c, i.render.head? = some c → isSpace c = false) ∧ i.render.getLast? = some i.unit ∧ isSpace i.unit = false := by
+  have hwf := valid_wf i h
+  simp only [Item.valid, Bool.and_eq_true, decide_eq_true_eq, Bool.or_eq_true, beq_iff_eq] at h
+  refine ⟨?_, ?_, ?_⟩
+  · intro c hc
+    unfold Item.render at hc
+    cases hn : i.neg with
+    | true => rw [hn] at hc; simp at hc; subst hc; decide
+    | false =>
+      rw [hn] at hc
+      cases hd : i.digits with
+      | nil => exact absurd hd hwf.1
+      | cons x xs =>
+        rw [hd] at hc; simp at hc; subst hc
+        have hx : isDigit x = true := by
+          have := hwf.2.1; unfold allDigits at this; rw [hd, List.all_eq_true] at this
+          exact this x (List.mem_cons_self ..)
+        unfold isDigit at hx
+        simp only [Bool.and_eq_true, decide_eq_true_eq] at hx
+        have h48 : 48 ≤ x.toNat := UInt8.le_iff_toNat_le.mp hx.1
+        unfold isSpace
+        have : ∀ k : UInt8, k.toNat < 48 → (x == k) = false := by
+          intro k hk; apply beq_false_of_ne; intro he; subst he; omega
+        simp [this 9 (by decide), this 10 (by decide), this 11 (by decide), this 12 (by decide), this 13 (by decide), this 32 (by decide)]
+  · unfold Item.render; rw [List.getLast?_concat]
+  · rcases h.2 with ((h' | h') | h') | h' <;> rw [h'] <;> decide
+
+theorem renderAll_getLast (items : List Item) (j : Item) (hl : items.getLast? = some j)
+    (hj : j.render.getLast? ≠ none) : (renderAll items).getLast? = j.render.getLast? := by
+  induction items with
+  | nil => cases hl
+  | cons i is ih =>
+    cases is with
+    | nil =>
+      simp only [List.getLast?_singleton, Option.some.injEq] at hl
+      subst hl
+      simp [renderAll]
+    | cons i' is' =>
+      rw [List.getLast?_cons_cons] at hl
+      have := ih hl
+      have hr : renderAll (i :: i' :: is') = i.render ++ renderAll (i' :: is') := by simp [renderAll]
+      rw [hr, List.getLast?_append, this]
+      cases hg : j.render.getLast? with
+      | none => exact absurd hg hj
+      | some x => simp
+
+/-- **completeness**: every string of the documented form whose numbers fit an `int` is accepted
+    with exactly the value it denotes (last value per unit) -/
+theorem duration_complete (items : List Item) (h : items.all Item.valid = true) :
+    parseDuration false (renderAll items) = .ok (denote items) := by
+  rw [List.all_eq_true] at h
+  have hwf : ∀ i ∈ items, wfItem i := fun i hi => valid_wf i (h i hi)
+  have htrim : trimSpace (renderAll items) = renderAll items := by
+    apply trimSpace_id
+    · intro c hc
+      cases items with
+      | nil => simp [renderAll] at hc
+      | cons i is =>
+        have hv := h i (List.mem_cons_self ..)
+        have hne : i.render ≠ [] := by unfold Item.render; simp
+        have : (renderAll (i :: is)).head? = i.render.head? := by
+          simp only [renderAll, List.flatMap_cons]
+          cases hr : i.render with
+          | nil => exact absurd hr hne
+          | cons a as => rfl
+        rw [this] at hc
+        exact (render_head_last i hv).1 c hc
+    · intro c hc
+      cases hl : items.getLast? with
+      | none =>
+        have : items = [] := List.getLast?_eq_none_iff.mp hl
+        subst this; simp [renderAll] at hc
+      | some j =>
+        have hj : j ∈ items := List.mem_of_getLast? hl
+        obtain ⟨_, h2, h3⟩ := render_head_last j (h j hj)
+        rw [renderAll_getLast items j hl (by rw [h2]; simp), h2] at hc
+        injection hc with hc; subst hc; exact h3
+  apply (duration_ok_iff _ _).mpr
+  rw [htrim]
+  exact ⟨items, tokenize_renderAll items hwf _ (by omega), List.all_eq_true.mpr h, rfl⟩
+
+
+/-! ### `Duration.String` parses back -/
+
+theorem digit_char (k : Nat) (hk : k < 10) :
+    isDigit (UInt8.ofNat (48 + k)) = true ∧ digitVal (UInt8.ofNat (48 + k)) = k := by
+  have ht : (UInt8.ofNat (48 + k)).toNat = 48 + k := UInt8.toNat_ofNat_of_lt' (by unfold UInt8.size; omega)
+  constructor
+  · unfold isDigit
+    simp only [Bool.and_eq_true, decide_eq_true_eq]
+    exact ⟨UInt8.le_iff_toNat_le.mpr (by rw [ht]; simp), UInt8.le_iff_toNat_le.mpr (by rw [ht]; simp; omega)⟩
+  · unfold digitVal; rw [ht]; omega
+
+theorem decVal_append_single (s : Str) (c : UInt8) : decVal (s ++ [c]) = decVal s * 10 + digitVal c := by
+  rw [decVal_eq, decVal_eq, decFrom_append]; rfl
+
+/-- `%d` of a natural number: a non-empty digit string with that value -/
+theorem toDec_spec (n : Nat) : toDec n ≠ [] ∧ allDigits (toDec n) = true ∧ decVal (toDec n) = n := by
+  induction n using Nat.strongRecOn with
+  | _ n ih =>
+    rw [toDec]
+    split
+    · rename_i h
+      obtain ⟨h1, h2⟩ := digit_char n h
+      refine ⟨List.cons_ne_nil _ _, ?_, ?_⟩
+      · unfold allDigits
+        simp only [List.all_cons, List.all_nil, Bool.and_true]; exact h1
+      · rw [decVal_eq]; unfold decFrom
+        simp only [List.foldl_cons, List.foldl_nil]; omega
+    · rename_i h
+      obtain ⟨i1, i2, i3⟩ := ih (n / 10) (by omega)
+      obtain ⟨h1, h2⟩ := digit_char (n % 10) (Nat.mod_lt _ (by omega))
+      refine ⟨by intro hc; exact absurd (List.append_eq_nil_iff.mp hc).2 (List.cons_ne_nil _ _), ?_, ?_⟩
+      · unfold allDigits at i2 ⊢
+        rw [List.all_append, i2]
+        simp only [List.all_cons, List.all_nil, Bool.and_true, Bool.true_and]; exact h1
+      · rw [decVal_append_single, i3, h2]; omega
+
+/-- the item `Duration.String` prints for a non-zero field -/
+def itemOf (x : Int) (u : UInt8) : List Item := if x ≠ 0 then [⟨decide (x < 0), toDec x.natAbs, u⟩] else []
+
+def itemsOf (d : Duration) : List Item :=
+  itemOf d.years 121 ++ itemOf d.months 109 ++ itemOf d.days 100 ++ itemOf d.hours 104
+
+theorem renderAll_append (a b : List Item) : renderAll (a ++ b) = renderAll a ++ renderAll b := by
+  simp [renderAll]
+
+theorem renderAll_itemOf (x : Int) (u : UInt8) :
+    renderAll (itemOf x u) = if x ≠ 0 then fmtInt x ++ [u] else [] := by
+  unfold itemOf
+  split
+  · simp only [renderAll, List.flatMap_cons, List.flatMap_nil, List.append_nil, Item.render, fmtInt]
+    by_cases hx : x < 0
+    · simp [hx]
+    · have : x.toNat = x.natAbs := by omega
+      simp [hx, this]
+  · rfl
+
+theorem durationString_eq (d : Duration) : durationString d = renderAll (itemsOf d) := by
+  unfold durationString itemsOf
+  simp only [renderAll_append, renderAll_itemOf]
+
+theorem itemOf_valid (x : Int) (u : UInt8) (hx : -9223372036854775808 < x ∧ x < 9223372036854775808)
+    (hu : u = 121 ∨ u = 109 ∨ u = 100 ∨ u = 104) : (itemOf x u).all Item.valid = true := by
+  unfold itemOf
+  split
+  · obtain ⟨h1, h2, h3⟩ := toDec_spec x.natAbs
+    simp only [List.all_cons, List.all_nil, Bool.and_true, Item.valid, Bool.and_eq_true, decide_eq_true_eq,
+      Bool.or_eq_true, beq_iff_eq]
+    refine ⟨⟨⟨h1, h2⟩, by rw [h3]; unfold two63; omega⟩, ?_⟩
+    rcases hu with h | h | h | h <;> simp [h]
+  · rfl
+
+theorem itemOf_value (x : Int) (u : UInt8) : (⟨decide (x < 0), toDec x.natAbs, u⟩ : Item).value = x := by
+  unfold Item.value
+  rw [(toDec_spec x.natAbs).2.2]
+  by_cases hx : x < 0
+  · simp [hx]; omega
+  · simp [hx]; omega
+
+theorem denote_itemsOf (d : Duration) : denote (itemsOf d) = d := by
+  obtain ⟨h, dd, m, y⟩ := d
+  unfold denote itemsOf itemOf
+  simp only [List.foldl_append]
+  have e1 : ∀ (d0 : Duration) (x : Int), List.foldl Duration.assign d0 (if x ≠ 0 then [⟨decide (x < 0), toDec x.natAbs, 121⟩] else []) =
+      (if x ≠ 0 then { d0 with years := x } else d0) := by
+    intro d0 x; split
+    · simp only [List.foldl_cons, List.foldl_nil, Duration.assign, if_true, itemOf_value]
+    · rfl
+  have e2 : ∀ (d0 : Duration) (x : Int), List.foldl Duration.assign d0 (if x ≠ 0 then [⟨decide (x < 0), toDec x.natAbs, 109⟩] else []) =
+      (if x ≠ 0 then { d0 with months := x } else d0) := by
+    intro d0 x; split
+    · have : ¬ ((109 : UInt8) = 121) := by decide
+      simp only [List.foldl_cons, List.foldl_nil, Duration.assign, this, if_false, if_true, itemOf_value]
+    · rfl
+  have e3 : ∀ (d0 : Duration) (x : Int), List.foldl Duration.assign d0 (if x ≠ 0 then [⟨decide (x < 0), toDec x.natAbs, 100⟩] else []) =
+      (if x ≠ 0 then { d0 with days := x } else d0) := by
+    intro d0 x; split
+    · have h1 : ¬ ((100 : UInt8) = 121) := by decide
+      have h2 : ¬ ((100 : UInt8) = 109) := by decide
+      simp only [List.foldl_cons, List.foldl_nil, Duration.assign, h1, h2, if_false, if_true, itemOf_value]
+    · rfl
+  have e4 : ∀ (d0 : Duration) (x : Int), List.foldl Duration.assign d0 (if x ≠ 0 then [⟨decide (x < 0), toDec x.natAbs, 104⟩] else []) =
+      (if x ≠ 0 then { d0 with hours := x } else d0) := by
+    intro d0 x; split
+    · have h1 : ¬ ((104 : UInt8) = 121) := by decide
+      have h2 : ¬ ((104 : UInt8) = 109) := by decide
+      have h3 : ¬ ((104 : UInt8) = 100) := by decide
+      simp only [List.foldl_cons, List.foldl_nil, Duration.assign, h1, h2, h3, if_false, if_true, itemOf_value]
+    · rfl
+  rw [e1, e2, e3, e4]
+  simp only [Duration.zero]
+  by_cases hy : y = 0 <;> by_cases hm : m = 0 <;> by_cases hd : dd = 0 <;> by_cases hh : h = 0 <;> simp [hy, hm, hd, hh]
+
+/-- a field of a `Duration` as produced by the parser: any `int` except the minimum -/
+def fieldOK (x : Int) : Prop := -9223372036854775808 < x ∧ x < 9223372036854775808
+
+/-- **print / parse**: `Duration.String` parses back to the same value (all fields in the range the
+    parser can produce; `math.MinInt` cannot be produced and would not parse back) -/
+theorem duration_print_parse (d : Duration)
+    (h : fieldOK d.hours ∧ fieldOK d.days ∧ fieldOK d.months ∧ fieldOK d.years) :
+    parseDuration false (durationString d) = .ok d := by
+  rw [durationString_eq]
+  have hv : (itemsOf d).all Item.valid = true := by
+    unfold itemsOf
+    simp only [List.all_append, Bool.and_eq_true]
+    exact ⟨⟨⟨itemOf_valid _ _ h.2.2.2 (Or.inl rfl), itemOf_valid _ _ h.2.2.1 (Or.inr (Or.inl rfl))⟩,
+      itemOf_valid _ _ h.2.1 (Or.inr (Or.inr (Or.inl rfl)))⟩, itemOf_valid _ _ h.1 (Or.inr (Or.inr (Or.inr rfl)))⟩
+  rw [duration_complete _ hv, denote_itemsOf]
+
+/-- every value the parser returns is in that range -/
+theorem parsed_fields_ok (s : Str) (d : Duration) (h : parseDuration false s = .ok d) :
+    fieldOK d.hours ∧ fieldOK d.days ∧ fieldOK d.months ∧ fieldOK d.years := by
+  obtain ⟨items, _, hv, hd⟩ := (duration_ok_iff s d).mp h
+  subst hd
+  unfold denote
+  have gen : ∀ (items : List Item) (d0 : Duration), items.all Item.valid = true →
+      (fieldOK d0.hours ∧ fieldOK d0.days ∧ fieldOK d0.months ∧ fieldOK d0.years) →
+      (fieldOK (items.foldl Duration.assign d0).hours ∧ fieldOK (items.foldl Duration.assign d0).days ∧
+       fieldOK (items.foldl Duration.assign d0).months ∧ fieldOK (items.foldl Duration.assign d0).years) := by
+    intro items
+    induction items with
+    | nil => intro d0 _ h0; exact h0
+    | cons i is ih =>
+      intro d0 hv h0
+      simp only [List.all_cons, Bool.and_eq_true] at hv
+      rw [List.foldl_cons]
+      apply ih _ hv.2
+      have hval : fieldOK i.value := by
+        have := hv.1
+        simp only [Item.valid, Bool.and_eq_true, decide_eq_true_eq] at this
+        have hlt := this.1.2
+        unfold two63 at hlt
+        unfold fieldOK Item.value
+        split <;> omega
+      unfold Duration.assign
+      split
+      · exact ⟨h0.1, h0.2.1, h0.2.2.1, hval⟩
+      · split
+        · exact ⟨h0.1, h0.2.1, hval, h0.2.2.2⟩
+        · split
+          · exact ⟨h0.1, hval, h0.2.2.1, h0.2.2.2⟩
+          · split
+            · exact ⟨hval, h0.2.1, h0.2.2.1, h0.2.2.2⟩
+            · exact h0
+  exact gen items Duration.zero hv (by unfold fieldOK Duration.zero; simp)
+
+/-- **durations print back in a form that parses to the same value** -/
+theorem duration_roundtrip (s : Str) (d : Duration) (h : parseDuration false s = .ok d) :
+    parseDuration false (durationString d) = .ok d :=
+  duration_print_parse d (parsed_fields_ok s d h)
+
 end Restic.Props.C49
